@@ -2,6 +2,7 @@
   C19 — helper lemmas: hex round trips, the decimal-context arithmetic of amounts, the number scanner.
 -/
 import BtcVerif.Model.Rpc
+import Mathlib.Tactic.SplitIfs
 namespace BtcVerif.Rpc
 open BtcVerif Model.Rpc
 
@@ -444,5 +445,84 @@ theorem scanNumber_render (t : NumText) (hwf : t.WF) : scanNumber t.render = som
   simp only []
   rw [scanExp_expText t.exp he]
   simp
+
+/-! ### the satoshis a text denotes -/
+
+theorem applySign_spec (neg : Bool) (n : Nat) :
+    (applySign neg n).natAbs = n ∧ (applySign neg n < 0 → neg = true) ∧ (0 < applySign neg n → neg = false) := by
+  unfold applySign
+  cases neg
+  · simp only [Bool.false_eq_true, if_false, Int.natAbs_natCast]
+    exact ⟨trivial, fun h => by omega, fun _ => trivial⟩
+  · simp only [if_true, Int.natAbs_neg, Int.natAbs_natCast]
+    exact ⟨trivial, fun _ => trivial, fun h => by omega⟩
+
+theorem satoshisDenoted_render (t : NumText) (hwf : t.WF) : satoshisDenoted t.render =
+    (if 0 ≤ t.expo + 8 then some (applySign t.neg (t.coeff * 10 ^ (t.expo + 8).toNat))
+     else if t.coeff % 10 ^ (-(t.expo + 8)).toNat = 0 then
+       some (applySign t.neg (t.coeff / 10 ^ (-(t.expo + 8)).toNat))
+     else none) := by
+  unfold satoshisDenoted
+  rw [scanNumber_render t hwf]
+
+/-- `satoshisDenoted` decides `denotes`: it returns `k` exactly when the text denotes `k` satoshis
+    (zero has one representative) -/
+theorem satoshisDenoted_sound (t : NumText) (hwf : t.WF) (k : Int) (h : satoshisDenoted t.render = some k) :
+    t.denotes k := by
+  rw [satoshisDenoted_render t hwf] at h
+  unfold NumText.denotes Spec.Rpc.denotesSat
+  by_cases he : 0 ≤ t.expo + 8
+  · rw [if_pos he] at h ⊢
+    cases h
+    obtain ⟨h1, h2, h3⟩ := applySign_spec t.neg (t.coeff * 10 ^ (t.expo + 8).toNat)
+    exact ⟨h1.symm, h2, h3⟩
+  · rw [if_neg he] at h ⊢
+    by_cases hd : t.coeff % 10 ^ (-(t.expo + 8)).toNat = 0
+    · rw [if_pos hd] at h
+      cases h
+      obtain ⟨h1, h2, h3⟩ := applySign_spec t.neg (t.coeff / 10 ^ (-(t.expo + 8)).toNat)
+      refine ⟨?_, h2, h3⟩
+      rw [h1]
+      exact (Nat.div_mul_cancel (Nat.dvd_of_mod_eq_zero hd)).symm
+    · rw [if_neg hd] at h; cases h
+
+theorem satoshisDenoted_complete (t : NumText) (hwf : t.WF) (k : Int) (h : t.denotes k) :
+    ∃ k', satoshisDenoted t.render = some k' ∧ k'.natAbs = k.natAbs := by
+  rw [satoshisDenoted_render t hwf]
+  obtain ⟨hval, _, _⟩ := h
+  by_cases he : 0 ≤ t.expo + 8
+  · rw [if_pos he] at hval ⊢
+    exact ⟨_, rfl, by rw [(applySign_spec _ _).1, hval]⟩
+  · rw [if_neg he] at hval ⊢
+    have hd : t.coeff % 10 ^ (-(t.expo + 8)).toNat = 0 := by rw [hval]; exact Nat.mul_mod_left _ _
+    rw [if_pos hd]
+    refine ⟨_, rfl, ?_⟩
+    rw [(applySign_spec _ _).1, hval]
+    exact Nat.mul_div_cancel _ (Nat.pow_pos (by omega))
+
+theorem fix_outcomes (c : Nat) (e : Int) : (∃ q, fix c e = .ok q) ∨ fix c e = .error overflow := by
+  unfold fix
+  by_cases h0 : c = 0
+  · rw [if_pos h0]; exact Or.inl ⟨_, rfl⟩
+  · rw [if_neg h0]
+    simp only []
+    by_cases hA : e + ↑(ndigits c) - 1 > EMAX
+    · rw [if_pos hA]; exact Or.inr rfl
+    · rw [if_neg hA]
+      by_cases hB : ndigits c ≤ PREC
+      · rw [if_pos hB]; exact Or.inl ⟨_, rfl⟩
+      · rw [if_neg hB]
+        repeat' split
+        all_goals first | exact Or.inr rfl | exact Or.inl ⟨_, rfl⟩
+
+/-- received amounts: a JSON number text is converted to an integer or refused with decimal.Overflow;
+    no other exception can come out of `int(Decimal * COIN)` -/
+theorem amountInNum_outcomes (t : NumText) : (∃ k, amountInNum t = .ok k) ∨ amountInNum t = .error overflow := by
+  by_cases hint : t.frac = none ∧ t.exp = none
+  · left; unfold amountInNum; rw [if_pos hint]; exact ⟨_, rfl⟩
+  · rw [amountInNum_unfold_dec t hint]
+    rcases fix_outcomes (t.coeff * COIN) t.expo with ⟨q, hq⟩ | hq
+    · left; rw [hq]; exact ⟨_, rfl⟩
+    · right; rw [hq]; rfl
 
 end BtcVerif.Rpc
